@@ -376,3 +376,26 @@ class OffsetTheory(TimeTheory):
             if isinstance(tz, ObjV) and tz.role == "tzobj":
                 return ObjV("decoded", info=dict(recv.info, zone=tz.info["off"], rezoned=True))
         return super().call_method(ex, recv, name, args, kwargs)
+
+
+class PdsDecTheory(OffsetTheory):
+    """PDSLabelDecoder.decode_datetime: the plain cascade's result, refused when it has sub-millisecond precision"""
+    name = "T_off"
+
+    def global_name(self, ex, name):
+        if name in ("hasattr", "ODLDecoder"):
+            return FuncV(name)
+        return super().global_name(ex, name)
+
+    def getattr(self, ex, recv, attr):
+        if isinstance(recv, ObjV) and recv.role == "decoded" and attr == "microsecond":
+            return Z("int", z3.Const(f"decode_{recv.info['of']}_microsecond", I))
+        return super().getattr(ex, recv, attr)
+
+    def call(self, ex, fv, args, kwargs, node):
+        if isinstance(fv, FuncV) and fv.name == "hasattr":
+            v, nm = args
+            if isinstance(v, ObjV) and v.role == "decoded" and isinstance(nm, Conc) and nm.v == "microsecond":
+                return Z("bool", v.info["temporal"])     # dates and leap-second texts have no microsecond attribute
+            raise Untranslatable("hasattr")
+        return super().call(ex, fv, args, kwargs, node)
